@@ -426,10 +426,13 @@ type prediction struct {
 	over      map[string]bool // keep-session: master pools that may be over-returned
 	f3, f4    bool
 	f5        bool
+	f7        bool
 	orphan    map[sh.ConnKey]bool // sockets opened by DirectConnection's reconnect after "broken pipe" (F6)
 }
 
-func predict(c sh.Case, tr *sh.Trace) *prediction {
+// fixedTree: F1-F5 are repaired in the tree under test (only the open findings' effects are predicted, and the
+// connection bookkeeping follows the repaired behaviour).
+func predict(c sh.Case, tr *sh.Trace, fixedTree bool) *prediction {
 	p := &prediction{leak: map[string]int64{}, offAt: map[int]map[string]int64{}, abandoned: map[sh.ConnKey]bool{}, over: map[string]bool{}, orphan: map[sh.ConnKey]bool{}}
 	nsess := len(c.RWSplit)
 	type ps struct {
@@ -449,7 +452,7 @@ func predict(c sh.Case, tr *sh.Trace) *prediction {
 		// ROLLBACK / COM_QUIT / Session.Close: closed transaction connections are skipped, not recycled (F2)
 		if !c.KeepSession {
 			for sl, tc := range m.conns {
-				if tc.closed && closedBefore[tc] {
+				if tc.closed && closedBefore[tc] && !fixedTree {
 					p.leak[sl+"/master"]++
 					p.abandoned[tc.conn] = true // the reconnected socket is never closed either
 					p.f2 = true
@@ -545,6 +548,21 @@ func predict(c sh.Case, tr *sh.Trace) *prediction {
 				// sync was refused or the socket died): the connection is closed and recycled by getTransactionConn /
 				// getBackendKsConn, returned together with the error, and recycled again by ExecuteSQL's deferred
 				// recycleBackendConn, which also drops the transaction map.
+				if fixedTree {
+					// F7: a streamed reply (continueConn) on a connection that is flagged closed: ExecuteSQL's deferred
+					// recycleBackendConn tests IsClosed() before it tests continueConn and recycles the connection, the
+					// stream then fails and recycleContinueConn recycles it a second time.
+					if (st.Cmd.K == sh.KUBig || st.Cmd.K == sh.KUMulti) && tc != nil && closedBefore[tc] {
+						p.f7 = true
+						p.leak["slice-0/master"]--
+						delete(m.conns, "slice-0")
+						break
+					}
+					if timeoutUn || epipe || (tc != nil && closedBefore[tc]) {
+						delete(m.conns, "slice-0") // repaired: only the closed connection is forgotten and recycled once
+					}
+					break
+				}
 				if openFailed(msg) {
 					p.f5 = true
 					if c.KeepSession {
@@ -619,7 +637,9 @@ func predict(c sh.Case, tr *sh.Trace) *prediction {
 				m.db = []string{"db", "db2"}[st.Cmd.N%2]
 			}
 		case st.Cmd.K == sh.KPing:
-			if c.KeepSession && !st.OK {
+			if c.KeepSession && !st.OK && fixedTree {
+				m.conns = map[string]*txConn{} // repaired: the recycled connections are unpinned
+			} else if c.KeepSession && !st.OK {
 				// F4: every pinned connection is recycled but stays pinned
 				for sl := range m.conns {
 					p.over[sl+"/master"] = true
@@ -668,7 +688,7 @@ func classify(c sh.Case, tr *sh.Trace, an *analysis) string {
 	if tr.StillChanging {
 		return ""
 	}
-	p := predict(c, tr)
+	p := predict(c, tr, false)
 	// F6: the ledger is fine, but a socket that DirectConnection.writePacket opened when it reconnected after "broken
 	// pipe" is still open (inside a transaction / autocommit off): the connection object stays flagged closed, so
 	// Recycle gives the slot back without ever closing that socket.
@@ -681,6 +701,12 @@ func classify(c sh.Case, tr *sh.Trace, an *analysis) string {
 		}
 		if all {
 			return "C19-F6"
+		}
+		return ""
+	}
+	if pf := predict(c, tr, true); pf.f7 {
+		if exactLedger(tr, an, pf) {
+			return "C19-F7"
 		}
 		return ""
 	}
@@ -736,7 +762,20 @@ func classify(c sh.Case, tr *sh.Trace, an *analysis) string {
 	if !p.f1 && !p.f2 && !p.f5 {
 		return ""
 	}
-	// corrected ledger: take the predicted effect of the known defects out of the counters and apply the same oracle
+	if !exactLedger(tr, an, p) {
+		return ""
+	}
+	switch {
+	case p.f5:
+		return "C19-F5"
+	case p.f1:
+		return "C19-F1"
+	}
+	return "C19-F2"
+}
+
+// exactLedger: take the predicted effect of the known defects out of the counters and apply the same oracle.
+func exactLedger(tr *sh.Trace, an *analysis, p *prediction) bool {
 	for _, st := range tr.Steps {
 		off, ok := p.offAt[st.Idx]
 		if !ok {
@@ -749,27 +788,21 @@ func classify(c sh.Case, tr *sh.Trace, an *analysis) string {
 			}
 			v := q.InUse - off[q.Name]
 			if v < 0 || v > b {
-				return ""
+				return false
 			}
 		}
 	}
 	for _, q := range tr.FinalPools {
 		if q.InUse != p.leak[q.Name] || q.Available != q.Capacity-q.InUse {
-			return ""
+			return false
 		}
 	}
 	for _, d := range an.dirty {
 		if !p.abandoned[d.Key] {
-			return ""
+			return false
 		}
 	}
-	switch {
-	case p.f5:
-		return "C19-F5"
-	case p.f1:
-		return "C19-F1"
-	}
-	return "C19-F2"
+	return true
 }
 
 // ---- acquisition path: "this slice cannot give a connection right now" ----
